@@ -99,7 +99,8 @@ def build(ctx, kind, cfg, var=None):
             return sym_and(u.condition_code == cond, u.file_checksum == cks, u.file_size == size,
                            (u.fault_location is None) if flt is None else
                            (u.fault_location is not None and u.fault_location.value == flraw))
-        return Built(kind, pdu, assemble(ctx, kind, v, body), check, conf, v, before, dict(size=size))
+        return Built(kind, pdu, assemble(ctx, kind, v, body), check, conf, v, before,
+                     dict(size=size, vals=dict(cks=cks, size=size, fl=flt, cond=cond)))
     if kind == "finished":
         nresp, fl = var.get("nresp", 0), var.get("fl")
         cond = sym_cond(ctx, exclude=(0, 11) if fl else ())
@@ -125,7 +126,8 @@ def build(ctx, kind, cfg, var=None):
                     conds += [r.action_code == info["action"], r.status_code == info["full"], r.first_file_name == info["n1"],
                               r.filestore_msg.value == info["msg"]]
             return sym_and(*conds)
-        return Built(kind, pdu, assemble(ctx, kind, v, body), check, conf, v, before, dict(params=params))
+        return Built(kind, pdu, assemble(ctx, kind, v, body), check, conf, v, before,
+                     dict(params=params, vals=dict(cond=cond, deliv=deliv, fstat=fstat, resps=resps, fl=flt)))
     if kind == "ack":
         acked = var.get("acked", 4)
         cond = sym_cond(ctx)
@@ -136,7 +138,8 @@ def build(ctx, kind, cfg, var=None):
         def check(u):
             return sym_and(u.directive_code_of_acked_pdu == acked, u.directive_subtype_code == (1 if acked == 5 else 0),
                            u.condition_code_of_acked_pdu == cond, u.transaction_status == ts)
-        return Built(kind, pdu, assemble(ctx, kind, v, body, direction=(0 if acked == 5 else 1)), check, conf, v, before)
+        return Built(kind, pdu, assemble(ctx, kind, v, body, direction=(0 if acked == 5 else 1)), check, conf, v, before,
+                     dict(vals=dict(acked=acked, cond=cond, ts=ts)))
     if kind == "metadata":
         s1, s2, nopts = var.get("src", (1,)), var.get("dst", (1,)), var.get("nopts")
         closure = ctx.flag("closure")
@@ -175,7 +178,8 @@ def build(ctx, kind, cfg, var=None):
                 for o, (t, val) in zip(got, oinfo):
                     conds += [o.tlv_type == t, o.value == val]
             return sym_and(*conds)
-        return Built(kind, pdu, assemble(ctx, kind, v, body), check, conf, v, before, dict(params=params, size=size))
+        return Built(kind, pdu, assemble(ctx, kind, v, body), check, conf, v, before,
+                     dict(params=params, size=size, vals=dict(closure=closure, ck=ck, size=size, src=src, dst=dst, opts=opts)))
     if kind == "nak":
         nseg = var.get("nseg")
         start, end = ctx.int("start_of_scope", 0, fmax), ctx.int("end_of_scope", 0, fmax)
@@ -197,15 +201,17 @@ def build(ctx, kind, cfg, var=None):
                 for (a, b), (c, d) in zip(u.segment_requests, want):
                     conds += [a == c, b == d]
             return sym_and(*conds)
-        return Built(kind, pdu, assemble(ctx, kind, v, body), check, conf, v, before)
+        return Built(kind, pdu, assemble(ctx, kind, v, body), check, conf, v, before, dict(vals=dict(start=start, end=end, segs=segs)))
     if kind == "prompt":
         rr = ctx.flag("response_required")
         pdu = PromptPdu(conf, rr)
-        return Built(kind, pdu, assemble(ctx, kind, v, [9, rr << 7]), lambda u: u.response_required == rr, conf, v, before)
+        return Built(kind, pdu, assemble(ctx, kind, v, [9, rr << 7]), lambda u: u.response_required == rr, conf, v, before,
+                     dict(vals=dict(rr=rr)))
     if kind == "keepalive":
         prog = ctx.int("progress", 0, fmax)
         pdu = KeepAlivePdu(conf, prog)
-        return Built(kind, pdu, assemble(ctx, kind, v, [0x0C] + be(prog, n)), lambda u: u.progress == prog, conf, v, before)
+        return Built(kind, pdu, assemble(ctx, kind, v, [0x0C] + be(prog, n)), lambda u: u.progress == prog, conf, v, before,
+                     dict(vals=dict(prog=prog)))
     if kind == "filedata":
         nd, nm = var.get("ndata", 1), var.get("nmeta")
         off = ctx.int("offset", 0, fmax)
@@ -231,7 +237,7 @@ def build(ctx, kind, cfg, var=None):
                           u.has_segment_metadata == True]  # noqa: E712
             return sym_and(*conds)
         return Built(kind, pdu, assemble(ctx, kind, v, body, seg_meta=(0 if sm is None else 1), pdu_type=1), check, conf, v,
-                     before, dict(params=params))
+                     before, dict(params=params, vals=dict(data=data, off=off, sm=sm)))
     raise ValueError(kind)
 
 
